@@ -14,7 +14,24 @@ def one() -> None:
             if a not in areas:
                 areas.append(a)
     customs = [spec["custom"] for spec in PROPS.values() if spec.get("custom")]
-    results, _ = run_proofs(areas, None, 20000)
+    only = set(filter(None, os.environ.get("SEED_MODULES", "").split(",")))
+    if only:
+        # a contract is verified against the source of its own function only (callees enter through their contracts), so a change confined to some
+        # modules can only alter the verdicts of contracts on functions of those modules; lemmas do not read source at all
+        import multiprocessing as mp
+        from pyvc import check as C
+        tasks, _ = C.list_tasks(areas, None, 20000)
+        keep = []
+        for t in tasks:
+            if t[0] != "fn":
+                continue
+            world, lib, reg, lem = C._area(t[1])
+            if reg.contracts[t[2]].fn.split(":")[0] in only:
+                keep.append(t)
+        with mp.get_context("fork").Pool(min(16, max(1, len(keep)))) as pool:
+            results = pool.map(C._work, keep, chunksize=1) if keep else []
+    else:
+        results, _ = run_proofs(areas, None, 20000)
     for c in customs:
         results += importlib.import_module(c).run_custom("quick")
     bad = []
@@ -34,11 +51,18 @@ ids = sys.argv[1:] or [os.path.basename(d) for d in sorted(glob.glob("/verif/see
 assert subprocess.run(["git", "-C", "/repo", "status", "--short"], capture_output=True, text=True).stdout.strip() == "", "/repo dirty"
 path = "/verif/seeded/PROOF_STATUS.json"
 out = json.load(open(path)) if os.path.exists(path) and sys.argv[1:] else {}
+if sys.argv[1:] and "(unchanged)" in out:
+    pass
 for sid in ["(unchanged)"] + ids:
     if sid != "(unchanged)":
         subprocess.run(["git", "-C", "/repo", "apply", f"/verif/seeded/{sid}/patch.diff"], check=True)
+    mods = ""
+    if sid != "(unchanged)" and not os.environ.get("SEED_FULL"):
+        import re
+        files = re.findall(r"^\+\+\+ b/src/(\S+)\.py", open(f"/verif/seeded/{sid}/patch.diff").read(), re.M)
+        mods = ",".join(f.replace("/", ".") for f in files)
     try:
-        p = subprocess.run([sys.executable, __file__, "--one"], capture_output=True, text=True, cwd="/verif")
+        p = subprocess.run([sys.executable, __file__, "--one"], capture_output=True, text=True, cwd="/verif", env=dict(os.environ, SEED_MODULES=mods))
     finally:
         subprocess.run(["git", "-C", "/repo", "checkout", "--", "."])
     line = [l for l in p.stdout.split("\n") if l.startswith("RESULT ")]
